@@ -233,7 +233,7 @@ def gen_traces(rep, fn, n):
 
 
 def leg_t_gen(rep, work, mod, name, traces, variables, constants, config_vars, actions, internal=None, quiet=None,
-              invariants=(), timeout=1800):
+              invariants=(), timeout=1800, init="Init"):
     """leg T through a generated trace module (harness/tracegen.py): the module is written to the scratch directory,
     next to links to the hand-written specifications it instantiates"""
     from . import tracegen
@@ -246,7 +246,8 @@ def leg_t_gen(rep, work, mod, name, traces, variables, constants, config_vars, a
     for f in os.listdir(tlc.SPECS):
         if f.endswith(".tla") and not os.path.exists(work.path(f)):
             os.symlink(os.path.join(tlc.SPECS, f), work.path(f))
-    gen = tracegen.generate(work.dir, mod, variables, constants, config_vars, actions, internal, quiet, invariants)
+    gen = tracegen.generate(work.dir, mod, variables, constants, config_vars, actions, internal, quiet, invariants,
+                            init=init)
     cfg = cfg_text(None, spec="TraceSpec", invariants=[f"Inv_{i}" for i in invariants], constraints=["Track"],
                    postcondition="Report")
     return leg_t(rep, work, gen, name, cfg, traces, timeout=timeout, cwd=work.dir)
